@@ -2,5 +2,5 @@ import Drv.Util
 import Drv.C18
 
 def main : IO UInt32 := do
-  Drv.loop (← IO.getStdin) (← IO.getStdout) ([] : Config.Layer) Drv.C18.step
+  Drv.loop (← IO.getStdin) (← IO.getStdout) Drv.C18.init Drv.C18.step
   return 0
